@@ -131,7 +131,8 @@ def run_case(case, res):
 
     explore.explore(lambda: make_system(s0), script_of, case['bound'], judge, res,
                     dict(case, scenario=f'{case["pair"]}/{evname}'),
-                    only=case.get('choices'), point_hook=point_hook, closing_ticks=10)
+                    only=case.get('choices'), point_hook=point_hook, closing_ticks=10,
+                    shard=case.get('shard'))
     res.distinct('scenarios', (case['pair'], evname))
     if case['pair'] == 0 and case['event'] == 3:
         res.sample({'scenario': f'S0={s0} S1={s1} X={evname}', 'bound': case['bound']}, cap=1)
